@@ -243,6 +243,8 @@ class Ctx:
         for m in prop_modules:
             path = os.path.join(LEAN_DIR, *m.split(".")) + ".lean"
             src = open(path).read()
+            src = re.sub(r"/-.*?-/", lambda m: "\n" * m.group(0).count("\n"), src, flags=re.S)
+            src = re.sub(r"--.*", "", src)
             ns = None
             for line in src.split("\n"):
                 mm = re.match(r"namespace\s+(\S+)", line)
@@ -298,7 +300,7 @@ class Ctx:
             rc, so, se = run_cmd(["lake", "env", "lean", apath], cwd=LEAN_DIR, timeout=600, mem_gb=None)
         cur = None
         text = so + se
-        for mm in re.finditer(r"'([^']+)' (depends on axioms: \[([^\]]*)\]|does not depend on any axioms)", text):
+        for mm in re.finditer(r"'([^\n]+?)' (depends on axioms: \[([^\]]*)\]|does not depend on any axioms)", text):
             name = mm.group(1)
             axs = [a.strip() for a in (mm.group(3) or "").replace("\n", " ").split(",") if a.strip()]
             self.axioms[name] = axs
